@@ -4,7 +4,11 @@ package main
 
 import (
 	"fmt"
+	"go/constant"
+	"go/token"
 	"go/types"
+	"golang.org/x/tools/go/callgraph"
+	"sort"
 	"strings"
 
 	"golang.org/x/tools/go/ssa"
@@ -189,6 +193,77 @@ func runC07(c *Ctx) {
 		}
 	}
 
+	c.Rule("C07-D7", "a failed upgrade is not fatal one layer up, and the swap is synchronous: the function the Socket.IO layer wires as eio.Callbacks.OnError (raised by a failed, stalled or timed-out upgrade) "+
+		"reaches no close of the connection (serverConn.close/onFatalError, Manager.onClose/Close, the Engine.IO socket's Close) on either side; the server calls upgradeTo synchronously from the probe handler "+
+		"(a `go` there lets the frame after UPGRADE reach the probe handler, which kills the candidate)", 3)
+	{
+		onErr := p.Field("eio", "Callbacks", "OnError")
+		closers := regexpMustCompile(`\(\*sio\.serverConn\)\.(close|onFatalError)|\(\*sio\.Manager\)\.(onClose|Close|destroy)|\(\*eio\.(server|client)Socket\)\.(Close|close)|\(eio\.(Server)?Socket\)\.Close`)
+		n := 0
+		for _, top := range []*ssa.Function{p.Fn("sio", "newServerConn"), p.Fn("sio", "Manager.connect")} {
+			for _, f := range WithAnons(top) {
+				for _, st := range findInstrs(f, fieldStorePred(onErr)) {
+					n++
+					var target *ssa.Function
+					val := st.(*ssa.Store).Val
+					for {
+						if ct, ok := val.(*ssa.ChangeType); ok {
+							val = ct.X
+							continue
+						}
+						break
+					}
+					switch v := val.(type) {
+					case *ssa.MakeClosure:
+						target, _ = v.Fn.(*ssa.Function)
+						// a bound method value: the wrapper calls the method
+						if target != nil && target.Synthetic != "" {
+							for _, cs := range Calls(target) {
+								if sc := cs.Common().StaticCallee(); sc != nil {
+									target = sc
+								}
+							}
+						}
+					case *ssa.Function:
+						target = v
+					}
+					if target == nil {
+						c.Ob("C07-D7", FuncName(top)+"/OnError-wired", st.Pos(), false, "cannot resolve the function stored as eio.Callbacks.OnError: "+Term(st.(*ssa.Store).Val))
+						continue
+					}
+					reach := p.Reach(target, func(e *callgraph.Edge) bool { return p.inModule(e.Callee.Func) || e.Callee.Func == nil }, false)
+					var bad []string
+					for g := range reach {
+						if closers.MatchString(FuncName(originOf(g))) {
+							bad = append(bad, strings.Join(pathTo(reach, g), " → "))
+						}
+					}
+					sort.Strings(bad)
+					detail := ""
+					if len(bad) > 0 {
+						detail = bad[0]
+					}
+					c.Ob("C07-D7", FuncName(top)+"/OnError-not-fatal", st.Pos(), len(bad) == 0, "the Engine.IO error callback ("+FuncName(target)+") closes the connection: "+detail+" — an upgrade that fails or stalls (the only source of that callback while the old transport is healthy) would take the working connection down")
+				}
+			}
+		}
+		if n < 2 {
+			anchorFail("C07-D7: found %d stores to eio.Callbacks.OnError in newServerConn / Manager.connect, expected 2", n)
+		}
+		mu := p.Fn("eio", "Server.maybeUpgrade")
+		k := 0
+		for _, f := range WithAnons(mu) {
+			for _, in := range findInstrs(f, anyCallPred(`\(\*eio\.serverSocket\)\.upgradeTo`)) {
+				k++
+				_, isCall := in.(*ssa.Call)
+				c.Ob("C07-D7", "eio.Server.maybeUpgrade/upgradeTo-synchronous", in.Pos(), isCall, "upgradeTo is started with go/defer: the probe handler keeps reading the candidate while the swap has not happened yet")
+			}
+		}
+		if k == 0 {
+			c.Ob("C07-D7", "eio.Server.maybeUpgrade/upgradeTo-synchronous", mu.Pos(), false, "maybeUpgrade never calls upgradeTo")
+		}
+	}
+
 	c.Rule("C07-D6", "the upgrade timeout is disarmed before the swap: in both probe handlers `once.Do(close(done))` precedes upgradeTo/finishUpgradeTo on every path (else the timeout can fire after a successful probe, close the candidate, and the pending swap moves the socket onto a dead transport); and the new transport has the same read limit as a directly connected one (shared with C13-D2)", 4)
 	for _, a := range []struct{ short, fn, swap string }{
 		{"eio", "Server.maybeUpgrade", `\(\*eio\.serverSocket\)\.upgradeTo`},
@@ -326,6 +401,31 @@ func swapRegion(c *Ctx, rule string) {
 						continue
 					}
 					extra = append(extra, g)
+				}
+				// fold the packet-type test for every Engine.IO packet type: re-sent iff it is not NOOP
+				for T := int64(0); T <= 6; T++ {
+					var as []Assume
+					for _, b := range fn.Blocks {
+						for _, in := range b.Instrs {
+							bo, ok := in.(*ssa.BinOp)
+							if !ok || !strings.HasSuffix(Term(bo.X), ".Type") {
+								continue
+							}
+							k, isK := bo.Y.(*ssa.Const)
+							if !isK || k.Value == nil || k.Value.Kind() != constant.Int {
+								continue
+							}
+							switch bo.Op {
+							case token.EQL:
+								as = append(as, assumeCond(bo, T == k.Int64()))
+							case token.NEQ:
+								as = append(as, assumeCond(bo, T != k.Int64()))
+							}
+						}
+					}
+					// from the loop header (first instruction of the Send's loop body region): is the Send reachable for this type?
+					reach, _ := PrunedCanReach(fn, sw, as, func(in ssa.Instruction) bool { return in == cs[0].Instr }, nil)
+					c.Ob(rule, fmt.Sprintf("%s/resend-type-%d", name, T), cs[0].Pos(), reach == (T != 6), fmt.Sprintf("a queued packet of Engine.IO type %d is re-sent on the new transport: %v (every type except NOOP=6 must be, NOOP must not: a queued PING/MESSAGE/CLOSE that is dropped is lost for good)", T, reach))
 				}
 				c.Ob(rule, name+"/resend-unconditional", cs[0].Pos(), len(extra) == 0, fmt.Sprintf("re-send happens only under extra condition(s) %v", extra))
 			}
